@@ -15,7 +15,10 @@ import time
 from fractions import Fraction as Fr
 
 ROOT = os.path.dirname(os.path.dirname(os.path.abspath(__file__)))
-LEAN_DIR = os.path.join(ROOT, "lean")
+# Development aids (never set by the registered commands): ATSIM_REPO = scratch copy of the repository to check instead of /repo,
+# ATSIM_LEAN_DIR = private copy of lean/ (its Gen/ files are regenerated from ATSIM_REPO), ATSIM_OUT_DIR = where evidence/ and replays/ go.
+LEAN_DIR = os.environ.get("ATSIM_LEAN_DIR") or os.path.join(ROOT, "lean")
+OUT_DIR = os.environ.get("ATSIM_OUT_DIR") or ROOT
 REPO = os.environ.get("ATSIM_REPO", "/repo")
 PY = "/venv/bin/python"
 
@@ -50,7 +53,7 @@ def dec(s):
 # Lean: build, audit, driver
 class _Lock(object):
     def __enter__(self):
-        self.f = open(os.path.join(ROOT, ".lock"), "w")
+        self.f = open(os.path.join(LEAN_DIR if os.environ.get("ATSIM_LEAN_DIR") else ROOT, ".lock"), "w")
         fcntl.flock(self.f, fcntl.LOCK_EX)
         return self
 
@@ -304,8 +307,8 @@ class Run(object):
         cov.update(self.extra)
         ev = dict(property_id=self.prop, tier=self.tier, seed=self.seed, level=level, coverage=cov,
                   assumptions=self.assumptions, wall_s=round(wall, 2), violations=len(unknown) + (1 if (not unknown and self.ties) else 0))
-        os.makedirs(os.path.join(ROOT, "evidence"), exist_ok=True)
-        with open(os.path.join(ROOT, "evidence", self.prop + ".json"), "w") as f:
+        os.makedirs(os.path.join(OUT_DIR, "evidence"), exist_ok=True)
+        with open(os.path.join(OUT_DIR, "evidence", self.prop + ".json"), "w") as f:
             json.dump(ev, f, indent=1, default=str)
             f.write("\n")
         print("%s %s tier=%s seed=%d: theorems %d/%d, cases %d (distinct non-trivial %d), impl traces %d, known-finding hits %d, %.1fs -> %s" % (
@@ -314,10 +317,10 @@ class Run(object):
         return rc
 
     def _write_replay(self, obj):
-        os.makedirs(os.path.join(ROOT, "replays"), exist_ok=True)
+        os.makedirs(os.path.join(OUT_DIR, "replays"), exist_ok=True)
         s = json.dumps(obj, indent=1, default=str, sort_keys=True)
         name = "replays/%s-%s.json" % (self.prop, hashlib.sha1(s.encode()).hexdigest()[:10])
-        with open(os.path.join(ROOT, name), "w") as f:
+        with open(os.path.join(OUT_DIR, name), "w") as f:
             f.write(s + "\n")
         return name
 
@@ -329,6 +332,7 @@ def proof_stage(run, extra_obligation_names=()):
         raise InfraError("driver build failed:\n" + b["driver_log"])
     run.extra["lean_build_s"] = round(b["wall"], 1)
     run.extra["translator"] = b["translator"].get("summary", {})
+    run.translator_detail = b["translator"].get("detail", {})
     hits = grep_forbidden()
     if hits:
         raise InfraError("forbidden tokens in Lean sources: " + "; ".join(hits[:5]))
